@@ -45,6 +45,7 @@ class FuncSpec(object):
     self.drop = list(d.get('drop', ()))
     self.fresh_self = d.get('fresh_self', False)
     self.entry_assume = list(d.get('entry_assume', ()))
+    self.allocates = d.get('allocates', False)
 
 
 class ExternSpec(object):
@@ -60,6 +61,7 @@ class ExternSpec(object):
     self.raise_ensures = list(d.get('raise_ensures', ()))
     self.yields = d.get('yields', False)
     self.fresh = d.get('fresh', False)       # result is a freshly allocated object
+    self.allocates = d.get('allocates', False)
     self.notes = d.get('notes', '')
 
 
